@@ -76,6 +76,9 @@ def do_replay(prop, path):
     elif rp.get("kind") == "flatten_driver":
         from vf.e1.flatten_jobs import replay_flatten_driver
         viol, txt = replay_flatten_driver(rp)
+    elif rp.get("kind") == "bring_to_top":
+        from vf.e1.flatten_jobs import replay_bring_to_top
+        viol, txt = replay_bring_to_top(rp)
     elif rp.get("kind") == "edif_net_counts":
         from vf.e1.compose_jobs import replay_edif_net_counts
         viol, txt = replay_edif_net_counts(rp)
